@@ -488,6 +488,9 @@ func (tr JUnitReporter) Publish(_ context.Context, r report.Report) error {
 
 	slices.Sort(files)
 
+	// one test suite per file, not one per violation
+	files = slices.Compact(files)
+
 	for _, file := range files {
 		testsuite := junit.Testsuite{
 			Name: file,
